@@ -12,14 +12,24 @@
     (+ `segIntersectsS_*` with the site), `collinearPt_*`, `segContainsSeg_*`;
   * `on`, segment intersection and segment containment are invariant under ALL the symmetries:
     `onSeg_reflX/_reflY/_transpose`, `segsMeet_reflX/_reflY/_transpose`,
-    `raycast_on_reflX/…`, `segIntersects_reflX/…`, `segContainsSeg_reflX/…`;
+    `raycast_on_reflX/…`, `segIntersects_reflX/…`, `segContainsSeg_reflX/…`; hence Line × Line
+    intersection and Line ∋ Point are invariant under all of them (`lineIntersectsLine_reflX/…`,
+    `lineContainsPoint_reflX/…`; un-indexed line strings);
   * series attributes: `processPoints_translate/_scale` (flags unchanged, rectangle mapped),
     `convexSpec_reflX/_reflY/_transpose` (convex flag unchanged), `clockwiseSpec_reflX/…`
     (= `decide (area2 v > 0)`: flipped unless the area is 0), and the same for the flags
     computed by `processPoints`;
   * membership of a point in an un-indexed ring under translation and positive scaling:
-    `ringContainsPoint_translate/_scale` (the whole result, edge index included);
-  * the ring-level and geometry-level predicates: see the end of the file.
+    `ringContainsPoint_translate/_scale` (the whole result, edge index included; `_hit` variants
+    are the statements as asked);
+  * every ring-level predicate, for two un-indexed rings related by p ↦ k·p + d, 0 < k
+    (relation `EQ.RingSim`): `ringContainsSegment_aff`, `ringIntersectsSegment_aff`,
+    `ringContainsRing_aff`, `ringIntersectsRing_aff` (area comparison included),
+    `ringIntersectsLine_aff`, `line_containsLineO_aff` (the walk);
+  * the two 4 × 4 matrices: `geom_contains_translate/_scale`, `geom_intersects_translate/_scale`
+    (and the common generalisation `geom_contains_aff`, `geom_intersects_aff`) for geometries all
+    of whose series are built by `mkSeries … .none 0` (`Geom.Built`); NO layer is missing, so
+    they are not named `_partial`.
 
   NOT PROVED (and not expected to be provable without a Jordan-curve argument, or false):
   * invariance of `raycast.inn` / of polygon membership under reflections and transposition
@@ -32,7 +42,7 @@
 import GeoProofs.EquivLemmas
 
 namespace Geo
-open EQ
+open EQ GL
 
 /-! ## kernels under translation and positive scaling -/
 
@@ -139,6 +149,79 @@ theorem segContainsSeg_transpose (s t : Seg) :
   rw [Bool.eq_iff_iff, segContainsSeg_iff, segContainsSeg_iff]
   simp only [Seg.mapPts, onSeg_transpose]
 
+/-! ### line strings under reflections and transposition (no ray parity involved) -/
+
+/-- the segments of an open series rebuilt from mapped points -/
+theorem lineSegs_map (T : Pt → Pt) (hT : Function.Injective T) (p : Array Pt) :
+    (mkSeries (p.map T) false .none 0).numSegments = (mkSeries p false .none 0).numSegments ∧
+    ∀ i, i < (mkSeries p false .none 0).numSegments →
+      (mkSeries (p.map T) false .none 0).segmentAt i =
+        ⟨T ((mkSeries p false .none 0).segmentAt i).a, T ((mkSeries p false .none 0).segmentAt i).b⟩ :=
+  ⟨numSegmentsOf_map T hT p false, fun i hi => segmentAtOf_map T p false i hi⟩
+
+/-- Line × Line intersection is invariant under every injective point map that preserves
+    "the two segments share a point" -/
+theorem lineIntersectsLine_of_symm (T : Pt → Pt) (hT : Function.Injective T)
+    (hm : ∀ a b c d, SegsMeet (T a) (T b) (T c) (T d) ↔ SegsMeet a b c d) (p q : Array Pt) :
+    Line.intersectsLine (mkSeries (p.map T) false .none 0) (mkSeries (q.map T) false .none 0)
+      = Line.intersectsLine (mkSeries p false .none 0) (mkSeries q false .none 0) := by
+  obtain ⟨np, sp⟩ := lineSegs_map T hT p
+  obtain ⟨nq, sq⟩ := lineSegs_map T hT q
+  rw [Bool.eq_iff_iff, line_meet_iff _ _ (mkSeries_plain _ _ _) (mkSeries_plain _ _ _),
+    line_meet_iff _ _ (mkSeries_plain _ _ _) (mkSeries_plain _ _ _), np, nq]
+  constructor
+  · rintro ⟨i, hi, j, hj, h⟩
+    rw [sp i hi, sq j hj] at h
+    exact ⟨i, hi, j, hj, (hm _ _ _ _).1 h⟩
+  · rintro ⟨i, hi, j, hj, h⟩
+    refine ⟨i, hi, j, hj, ?_⟩
+    rw [sp i hi, sq j hj]
+    exact (hm _ _ _ _).2 h
+
+theorem lineIntersectsLine_reflX (p q : Array Pt) :
+    Line.intersectsLine (mkSeries (p.map Pt.reflX) false .none 0) (mkSeries (q.map Pt.reflX) false .none 0)
+      = Line.intersectsLine (mkSeries p false .none 0) (mkSeries q false .none 0) :=
+  lineIntersectsLine_of_symm Pt.reflX reflX_inj segsMeet_reflX p q
+theorem lineIntersectsLine_reflY (p q : Array Pt) :
+    Line.intersectsLine (mkSeries (p.map Pt.reflY) false .none 0) (mkSeries (q.map Pt.reflY) false .none 0)
+      = Line.intersectsLine (mkSeries p false .none 0) (mkSeries q false .none 0) :=
+  lineIntersectsLine_of_symm Pt.reflY reflY_inj segsMeet_reflY p q
+theorem lineIntersectsLine_transpose (p q : Array Pt) :
+    Line.intersectsLine (mkSeries (p.map Pt.transpose) false .none 0)
+        (mkSeries (q.map Pt.transpose) false .none 0)
+      = Line.intersectsLine (mkSeries p false .none 0) (mkSeries q false .none 0) :=
+  lineIntersectsLine_of_symm Pt.transpose transpose_inj segsMeet_transpose p q
+
+/-- Line ∋ Point likewise -/
+theorem lineContainsPoint_of_symm (T : Pt → Pt) (hT : Function.Injective T)
+    (hon : ∀ a b c, OnSeg (T a) (T b) (T c) ↔ OnSeg a b c) (p : Array Pt) (x : Pt) :
+    Line.containsPoint (mkSeries (p.map T) false .none 0) (T x)
+      = Line.containsPoint (mkSeries p false .none 0) x := by
+  obtain ⟨np, sp⟩ := lineSegs_map T hT p
+  rw [Bool.eq_iff_iff, line_containsPoint_iff _ (mkSeries_plain _ _ _).1,
+    line_containsPoint_iff _ (mkSeries_plain _ _ _).1, np]
+  constructor
+  · rintro ⟨i, hi, h⟩
+    rw [sp i hi] at h
+    exact ⟨i, hi, (hon _ _ _).1 h⟩
+  · rintro ⟨i, hi, h⟩
+    refine ⟨i, hi, ?_⟩
+    rw [sp i hi]
+    exact (hon _ _ _).2 h
+
+theorem lineContainsPoint_reflX (p : Array Pt) (x : Pt) :
+    Line.containsPoint (mkSeries (p.map Pt.reflX) false .none 0) x.reflX
+      = Line.containsPoint (mkSeries p false .none 0) x :=
+  lineContainsPoint_of_symm Pt.reflX reflX_inj EQ.onSeg_reflX p x
+theorem lineContainsPoint_reflY (p : Array Pt) (x : Pt) :
+    Line.containsPoint (mkSeries (p.map Pt.reflY) false .none 0) x.reflY
+      = Line.containsPoint (mkSeries p false .none 0) x :=
+  lineContainsPoint_of_symm Pt.reflY reflY_inj EQ.onSeg_reflY p x
+theorem lineContainsPoint_transpose (p : Array Pt) (x : Pt) :
+    Line.containsPoint (mkSeries (p.map Pt.transpose) false .none 0) x.transpose
+      = Line.containsPoint (mkSeries p false .none 0) x :=
+  lineContainsPoint_of_symm Pt.transpose transpose_inj EQ.onSeg_transpose p x
+
 /-- `inn` is NOT invariant under the reflection x ↦ −x (the ray goes the other way) -/
 theorem raycast_inn_reflX_counterexample :
     (raycast ⟨0, 0⟩ ⟨0, 2⟩ ⟨-1, 1⟩).inn = true ∧
@@ -155,8 +238,7 @@ theorem processPoints_translate (d : Pt) (pts : Array Pt) (closed : Bool)
     (processPoints (pts.map (·.translate d)) closed).convex = (processPoints pts closed).convex ∧
     (processPoints (pts.map (·.translate d)) closed).clockwise = (processPoints pts closed).clockwise ∧
     (processPoints (pts.map (·.translate d)) closed).rect = (processPoints pts closed).rect.translate d := by
-  have e : (fun p : Pt => p.translate d) = Pt.aff 1 d := funext fun p => translate_eq_aff p d
-  simp only [e, processPoints_aff one_pos d pts closed hne, Box.translate, translate_eq_aff, EQ.Box.aff,
+  simp only [processPoints_aff one_pos d pts closed hne, Box.translate, translate_eq_aff, EQ.Box.aff,
     and_self]
 
 theorem processPoints_scale (k : Rat) (hk : 0 < k) (pts : Array Pt) (closed : Bool)
@@ -164,8 +246,7 @@ theorem processPoints_scale (k : Rat) (hk : 0 < k) (pts : Array Pt) (closed : Bo
     (processPoints (pts.map (·.scale k)) closed).convex = (processPoints pts closed).convex ∧
     (processPoints (pts.map (·.scale k)) closed).clockwise = (processPoints pts closed).clockwise ∧
     (processPoints (pts.map (·.scale k)) closed).rect = (processPoints pts closed).rect.scale k := by
-  have e : (fun p : Pt => p.scale k) = Pt.aff k ⟨0, 0⟩ := funext fun p => scale_eq_aff p k
-  simp only [e, processPoints_aff hk ⟨0, 0⟩ pts closed hne, Box.scale, scale_eq_aff, EQ.Box.aff, and_self]
+  simp only [processPoints_aff hk ⟨0, 0⟩ pts closed hne, Box.scale, scale_eq_aff, EQ.Box.aff, and_self]
 
 /-- an empty series has the zero rectangle and `false` flags whatever its points -/
 theorem processPoints_map_empty (T : Pt → Pt) (pts : Array Pt) (closed : Bool)
@@ -239,4 +320,184 @@ theorem processPoints_transpose (pts : Array Pt) (h : 3 ≤ pts.size) :
     (fun a b e => by simp only [SeriesL.turn, Pt.transpose]; ring)
     (fun a b => by simp only [Pt.transpose]; ring) pts h
 
+/-! ## point in ring (un-indexed) under translation and positive scaling
+
+The whole fold is equivariant: the strip query selects the same segments (every segment box of a
+`mkSeries`-built ring lies inside the ring rectangle, so only the y-test matters — the `±1`
+widening of `stripBox` is NOT scale-equivariant by itself), and `raycast` is equivariant. -/
+
+theorem translate_fun (d : Pt) : (fun p : Pt => p.translate d) = Pt.aff 1 d :=
+  funext fun p => translate_eq_aff p d
+theorem scale_fun (k : Rat) : (fun p : Pt => p.scale k) = Pt.aff k ⟨0, 0⟩ :=
+  funext fun p => scale_eq_aff p k
+
+theorem ringContainsPoint_translate (pts : Array Pt) (d p : Pt) (allowOnEdge : Bool) :
+    ringContainsPoint (.ser (mkSeries (pts.map (·.translate d)) true .none 0)) (p.translate d) allowOnEdge
+      = ringContainsPoint (.ser (mkSeries pts true .none 0)) p allowOnEdge := by
+  rw [translate_fun, translate_eq_aff]
+  exact ringContainsPoint_sim one_pos (ringSim_mk one_pos d pts true) p allowOnEdge
+
+theorem ringContainsPoint_scale (k : Rat) (hk : 0 < k) (pts : Array Pt) (p : Pt) (allowOnEdge : Bool) :
+    ringContainsPoint (.ser (mkSeries (pts.map (·.scale k)) true .none 0)) (p.scale k) allowOnEdge
+      = ringContainsPoint (.ser (mkSeries pts true .none 0)) p allowOnEdge := by
+  rw [scale_fun, scale_eq_aff]
+  exact ringContainsPoint_sim hk (ringSim_mk hk ⟨0, 0⟩ pts true) p allowOnEdge
+
+/-- the statement asked for (`hit` only) -/
+theorem ringContainsPoint_translate_hit (pts : Array Pt) (d p : Pt) (allowOnEdge : Bool) :
+    (ringContainsPoint (.ser (mkSeries (pts.map (·.translate d)) true .none 0)) (p.translate d) allowOnEdge).hit
+      = (ringContainsPoint (.ser (mkSeries pts true .none 0)) p allowOnEdge).hit := by
+  rw [ringContainsPoint_translate]
+
+theorem ringContainsPoint_scale_hit (k : Rat) (hk : 0 < k) (pts : Array Pt) (p : Pt) (allowOnEdge : Bool) :
+    (ringContainsPoint (.ser (mkSeries (pts.map (·.scale k)) true .none 0)) (p.scale k) allowOnEdge).hit
+      = (ringContainsPoint (.ser (mkSeries pts true .none 0)) p allowOnEdge).hit := by
+  rw [ringContainsPoint_scale k hk]
+
+/-! ## ring-level predicates, for any two un-indexed rings related by the map
+
+`RingSim k d r r'` (GeoProofs/EquivLemmas.lean) says that `r'` is the image of the un-indexed
+ring `r` under `p ↦ k·p + d`; it holds for `r = .ser (mkSeries pts c .none 0)`,
+`r' = .ser (mkSeries (pts.map …) c .none 0)` (`ringSim_mk`) and for rectangles (`ringSim_bx`). -/
+
+theorem ringContainsSegment_aff {k : Rat} (hk : 0 < k) {d : Pt} {r r' : Ring} (h : RingSim k d r r')
+    (seg : Seg) (b : Bool) :
+    ringContainsSegment r' ⟨Pt.aff k d seg.a, Pt.aff k d seg.b⟩ b = ringContainsSegment r seg b :=
+  ringContainsSegment_sim hk h seg b
+
+theorem ringIntersectsSegment_aff {k : Rat} (hk : 0 < k) {d : Pt} {r r' : Ring} (h : RingSim k d r r')
+    (seg : Seg) (b : Bool) :
+    ringIntersectsSegment r' ⟨Pt.aff k d seg.a, Pt.aff k d seg.b⟩ b = ringIntersectsSegment r seg b :=
+  ringIntersectsSegment_sim hk h seg b
+
+theorem ringContainsRing_aff {k : Rat} (hk : 0 < k) {d : Pt} {r r' o o' : Ring}
+    (h : RingSim k d r r') (ho : RingSim k d o o') (b : Bool) :
+    ringContainsRing r' o' b = ringContainsRing r o b := ringContainsRing_sim hk h ho b
+
+/-- includes the area comparison that chooses which ring is walked (areas scale by k²) -/
+theorem ringIntersectsRing_aff {k : Rat} (hk : 0 < k) {d : Pt} {r r' o o' : Ring}
+    (h : RingSim k d r r') (ho : RingSim k d o o') (b : Bool) :
+    ringIntersectsRing r' o' b = ringIntersectsRing r o b := ringIntersectsRing_sim hk h ho b
+
+theorem ringIntersectsLine_aff {k : Rat} (hk : 0 < k) {d : Pt} {r r' : Ring} {l l' : Line}
+    (h : RingSim k d r r') (hl : SerSim k d l l') (b : Bool) :
+    ringIntersectsLine r' l' b = ringIntersectsLine r l b := ringIntersectsLine_sim hk h hl b
+
+/-- the `Line.ContainsLine` walk, `Option` result included -/
+theorem line_containsLineO_aff {k : Rat} (hk : 0 < k) {d : Pt} {l l' o o' : Line}
+    (hl : SerSim k d l l') (ho : SerSim k d o o') : l'.containsLineO o' = l.containsLineO o :=
+  line_containsLineO_sim hk hl ho
+
+/-! ## the 4 × 4 matrices
+
+`A.mapPts T` rebuilds `A` from the mapped points with `mkSeries … .none 0` (rectangles and
+points are mapped directly); `A.Built` says every series of `A` is what `mkSeries … .none 0`
+builds from its points (so its flags and rectangle are the computed ones, and it has no index).
+All layers are proved (ring × point, ring × segment both ways, ring × ring both ways, ring × line,
+the line walk, line × line, polygons with holes, the 16 + 16 dispatch cases), so these are the
+full theorems, not `_partial`. -/
+
+theorem geom_contains_aff {k : Rat} (hk : 0 < k) (d : Pt) (A B : Geom) (hA : A.Built) (hB : B.Built) :
+    (A.mapPts (Pt.aff k d)).contains (B.mapPts (Pt.aff k d)) = A.contains B :=
+  geom_contains_sim hk (geomSim_mapPts hk d A hA) (geomSim_mapPts hk d B hB)
+
+theorem geom_intersects_aff {k : Rat} (hk : 0 < k) (d : Pt) (A B : Geom) (hA : A.Built) (hB : B.Built) :
+    (A.mapPts (Pt.aff k d)).intersects (B.mapPts (Pt.aff k d)) = A.intersects B :=
+  geom_intersects_sim hk (geomSim_mapPts hk d A hA) (geomSim_mapPts hk d B hB)
+
+theorem geom_contains_translate (d : Pt) (A B : Geom) (hA : A.Built) (hB : B.Built) :
+    (A.mapPts (·.translate d)).contains (B.mapPts (·.translate d)) = A.contains B := by
+  rw [translate_fun]; exact geom_contains_aff one_pos d A B hA hB
+
+theorem geom_intersects_translate (d : Pt) (A B : Geom) (hA : A.Built) (hB : B.Built) :
+    (A.mapPts (·.translate d)).intersects (B.mapPts (·.translate d)) = A.intersects B := by
+  rw [translate_fun]; exact geom_intersects_aff one_pos d A B hA hB
+
+theorem geom_contains_scale (k : Rat) (hk : 0 < k) (A B : Geom) (hA : A.Built) (hB : B.Built) :
+    (A.mapPts (·.scale k)).contains (B.mapPts (·.scale k)) = A.contains B := by
+  rw [scale_fun]; exact geom_contains_aff hk ⟨0, 0⟩ A B hA hB
+
+theorem geom_intersects_scale (k : Rat) (hk : 0 < k) (A B : Geom) (hA : A.Built) (hB : B.Built) :
+    (A.mapPts (·.scale k)).intersects (B.mapPts (·.scale k)) = A.intersects B := by
+  rw [scale_fun]; exact geom_intersects_aff hk ⟨0, 0⟩ A B hA hB
+
+/-- non-vacuity: a polygon with a hole and a line string, both `Built` -/
+example : (Geom.poly ⟨some (.ser (mkSeries #[⟨0,0⟩,⟨10,0⟩,⟨10,10⟩,⟨0,10⟩,⟨0,0⟩] true .none 0)),
+    [.ser (mkSeries #[⟨3,3⟩,⟨5,3⟩,⟨5,5⟩,⟨3,5⟩,⟨3,3⟩] true .none 0)]⟩).Built :=
+  ⟨fun e he => by cases he; exact mkSeries_built _ _, fun h hh => by
+    simp only [List.mem_singleton] at hh; subst hh; exact mkSeries_built _ _⟩
+
+/-- scaling by a NEGATIVE factor (point reflection) is not covered, and `raycast.inn` is not
+    invariant under it -/
+theorem raycast_inn_neg_scale_counterexample :
+    (raycast ⟨0, 0⟩ ⟨0, 2⟩ ⟨-1, 1⟩).inn = true ∧
+    (raycast (Pt.scale ⟨0, 0⟩ (-1)) (Pt.scale ⟨0, 2⟩ (-1)) (Pt.scale ⟨-1, 1⟩ (-1))).inn = false := by
+  decide +kernel
+
 end Geo
+
+#print axioms Geo.raycast_translate
+#print axioms Geo.raycast_scale
+#print axioms Geo.raycast_translate_eq
+#print axioms Geo.raycast_scale_eq
+#print axioms Geo.segIntersectsS_translate
+#print axioms Geo.segIntersectsS_scale
+#print axioms Geo.segIntersects_translate
+#print axioms Geo.segIntersects_scale
+#print axioms Geo.collinearPt_translate
+#print axioms Geo.collinearPt_scale
+#print axioms Geo.segContainsSeg_translate
+#print axioms Geo.segContainsSeg_scale
+#print axioms Geo.onSeg_reflX
+#print axioms Geo.onSeg_reflY
+#print axioms Geo.onSeg_transpose
+#print axioms Geo.segsMeet_reflX
+#print axioms Geo.segsMeet_reflY
+#print axioms Geo.segsMeet_transpose
+#print axioms Geo.raycast_on_reflX
+#print axioms Geo.raycast_on_reflY
+#print axioms Geo.raycast_on_transpose
+#print axioms Geo.segIntersects_reflX
+#print axioms Geo.segIntersects_reflY
+#print axioms Geo.segIntersects_transpose
+#print axioms Geo.segContainsSeg_reflX
+#print axioms Geo.segContainsSeg_reflY
+#print axioms Geo.segContainsSeg_transpose
+#print axioms Geo.lineIntersectsLine_of_symm
+#print axioms Geo.lineIntersectsLine_reflX
+#print axioms Geo.lineIntersectsLine_reflY
+#print axioms Geo.lineIntersectsLine_transpose
+#print axioms Geo.lineContainsPoint_of_symm
+#print axioms Geo.lineContainsPoint_reflX
+#print axioms Geo.lineContainsPoint_reflY
+#print axioms Geo.lineContainsPoint_transpose
+#print axioms Geo.raycast_inn_reflX_counterexample
+#print axioms Geo.processPoints_translate
+#print axioms Geo.processPoints_scale
+#print axioms Geo.processPoints_map_empty
+#print axioms Geo.convexSpec_reflX
+#print axioms Geo.convexSpec_reflY
+#print axioms Geo.convexSpec_transpose
+#print axioms Geo.clockwiseSpec_reflX
+#print axioms Geo.clockwiseSpec_reflY
+#print axioms Geo.clockwiseSpec_transpose
+#print axioms Geo.processPoints_reflX
+#print axioms Geo.processPoints_reflY
+#print axioms Geo.processPoints_transpose
+#print axioms Geo.ringContainsPoint_translate
+#print axioms Geo.ringContainsPoint_scale
+#print axioms Geo.ringContainsPoint_translate_hit
+#print axioms Geo.ringContainsPoint_scale_hit
+#print axioms Geo.ringContainsSegment_aff
+#print axioms Geo.ringIntersectsSegment_aff
+#print axioms Geo.ringContainsRing_aff
+#print axioms Geo.ringIntersectsRing_aff
+#print axioms Geo.ringIntersectsLine_aff
+#print axioms Geo.line_containsLineO_aff
+#print axioms Geo.geom_contains_aff
+#print axioms Geo.geom_intersects_aff
+#print axioms Geo.geom_contains_translate
+#print axioms Geo.geom_intersects_translate
+#print axioms Geo.geom_contains_scale
+#print axioms Geo.geom_intersects_scale
+#print axioms Geo.raycast_inn_neg_scale_counterexample
